@@ -133,6 +133,20 @@ def shard(idx, n, seed, tier, params):
     if jobs:
         acc.sample({"kind": "single-char mutant", "text": jobs[0][4][:120]})
 
+    # (b2) generated programs in the hostile layout (trivia at every boundary where the grammar takes it)
+    from ..gen import prog as P, render
+    for k in range(params.get("generated", 0) // n):
+        if time.time() > t_end:
+            break
+        prog = P.generate(rng, {"max_bytes": 200, "top_stmts": 8})
+        try:
+            files, _ = render.render_program(prog, render.Hostile(rng))
+        except render.SpellError:
+            continue
+        chunk = [t + MARKER_SRC for name, t in sorted(files.items()) if name == "main.asm"]
+        for t, r in zip(chunk, ask(probe, chunk)):
+            judge(acc, r, t, "generated program in hostile layout", True)
+
     # (c) random multi-edit mutants and fragment concatenations of repository sources
     texts = []
     for _ in range(params["random"] // n):
@@ -165,11 +179,12 @@ def shard(idx, n, seed, tier, params):
 def main(tier, seed):
     t0 = time.time()
     params = {"budget": 80 if tier == "quick" else 1200, "mutants": 600000 if tier == "quick" else 10 ** 9,
-              "random": 150000 if tier == "quick" else 400000}
+              "random": 150000 if tier == "quick" else 400000,
+              "generated": 3000 if tier == "quick" else 60000}
     acc = run_sharded(shard, seed, tier, params)
     return finish(
         "C05", tier, seed, acc, t0,
-        rule="texts: every repository source, guide code block and unit-test snippet; every single-character deletion/insertion/"
+        rule="texts: every repository source, guide code block and unit-test snippet; generated programs in the hostile layout; every single-character deletion/insertion/"
              "replacement (hostile alphabet of %d characters) at every position of %d short programs (thorough: complete; quick: "
              "seeded sample); random multi-edit mutants and fragment concatenations. Judged only when parse AND build report no "
              "diagnostics: Display(tokens) must equal the text (CRLF->LF, case of keywords) and a marker statement appended at the "
